@@ -218,6 +218,13 @@ def check_errors(ctx, req, resp, ref, case, prop_name="errors"):
 
 async def new_bundle(rng, sopts=None, **engine_opts):
     s = smodel.gen_schema(rng, sopts)
-    b = harness.Bundle(s, **engine_opts)
+    sdl = None
+    if rng.random() < 0.35:
+        # the order of definitions in an SDL document carries no meaning: objects before the interfaces they implement,
+        # unions before their members, the schema definition first, ...
+        chunks = smodel.sdl_chunks(s)
+        rng.shuffle(chunks)
+        sdl = "\n\n".join(chunks) + "\n"
+    b = harness.Bundle(s, sdl=sdl, **engine_opts)
     await b.build()
     return s, b
